@@ -8,14 +8,14 @@ BASELINE = "cd /repo && /venv/bin/python -m pytest -ra -q -p no:cacheprovider --
 CLAIMED = {
     "C15": dict(
         engine="A",
-        technique="deterministic simulation: seeded scripted-training runs of the real fit_to_data with a tagging loss and a counting optimiser; history oracle (partition, alignment, at-most-once, no-val-in-gradient, fresh keys, replay determinism); loss-value fault injection; groups of 2-3 concurrent callers on real threads under a seeded baton-passing scheduler (pre-emption at every eager line of flowjax/train) with interrupt-and-restart faults, each caller's history compared with the same world run alone",
+        technique="deterministic simulation: seeded scripted-training runs of the real fit_to_data with a tagging loss and a counting optimiser; history oracle (partition, alignment, at-most-once, no-val-in-gradient, fresh keys, replay determinism); loss-value fault injection; array forms (rows with several trailing dimensions, float64 / int32 data); groups of 2-3 concurrent callers on real threads under a seeded baton-passing scheduler (pre-emption at every eager line of flowjax/train) with interrupt-and-restart faults, each caller's history compared with the same world run alone",
         text="Seeded exploration (not proof) of whole training runs: every loss call and gradient step of thousands of simulated runs over n in 2..60, batch_size in 1..n+5, a val_prop grid, with/without condition, 1-4 epochs is recorded through ordered host callbacks and checked against oracles that follow from the statement for any implementation. Thorough covers every (n, batch_size) pair of the stated range at least once. One run index in six is a group of concurrent callers whose interleaving is decided by the simulator (DESIGN §12); 'same key => same run' is checked next to other callers and after an interrupted call.",
         note="Trusted: jax ordered io_callback ordering, the tagging-loss construction (gradient w.r.t. w = row multiset), determinism of jax on CPU. Validation rows are only observable through validation loss calls. Threads can be switched only at line events of eagerly executing flowjax/train frames. Sampling, not enumeration.",
         ref="DESIGN.md §3.1, §12",
     ),
     "C16": dict(
         engine="A",
-        technique="deterministic simulation: both training loops driven by a scripted loss sequence (incl. +-inf, NaN, ties, near-ties, degenerate knobs) and a counting optimiser; refinement check of the recorded history against an executable reference model of stop/selection; seeded search with shrinking and exact replay; concurrent callers under a seeded scheduler with interrupt-and-restart faults (each caller's stop/selection decided from its own losses)",
+        technique="deterministic simulation: both training loops driven by a scripted loss sequence (incl. +-inf, NaN, ties, near-ties, degenerate knobs) and a counting optimiser; refinement check of the recorded history against an executable reference model of stop/selection; related histories (a run shares a prefix of the loss sequence of the run executed just before it in the same process); seeded search with shrinking and exact replay; concurrent callers under a seeded scheduler with interrupt-and-restart faults (each caller's stop/selection decided from its own losses)",
         text="Seeded exploration of the stop/selection behaviour of both loops: the returned parameters carry the number of gradient steps they came from, so 'which parameters were returned' is an integer compared with a 30-line reference model over the recorded losses. Strict oracle for distinct finite/+-inf losses; narrowly relaxed (and separately counted) for ties and NaN where the statement is silent.",
         note="Trusted: ordered callbacks, the reference model (sim/refmodel.py), the counting optimiser. Seeded sampling of orderings (L<=7 mostly, up to 20); the thorough tier additionally starts with a systematic block of every ordering for L<=7 x max_patience 0..L x max_epochs/steps in {L, L+1} x return_best x both loops (210 638 runs; shorter max_epochs are covered up to rank-equivalence of the loss prefix). Two run indices in sixteen are groups of concurrent callers (DESIGN §12).",
         ref="DESIGN.md §3.2, §12",
